@@ -16,19 +16,33 @@ import (
 // A tree is addressed by (space, index) so that a replay file can name it; the
 // enumeration is deterministic.
 
-var (
-	leaves9 = []expr.Expr{
+// leaf alphabets are built afresh for every space so that a constant corrupted
+// by the code under test cannot leak into a rebuilt space (see resetSpaces).
+func leaves9() []expr.Expr {
+	return []expr.Expr{
 		ir.ConstU(0, 1), ir.ConstU(1, 1), ir.ConstU(0xff, 1), ir.ConstU(0x0100, 2), ir.ConstU(0xffff, 2),
 		expr.NewRegLoad("r1", 1), expr.NewRegLoad("r1", 2), expr.NewRegLoad("r1", 4), expr.NewRegLoad("r2", 1),
 	}
-	leaves4 = []expr.Expr{
-		ir.ConstU(1, 1), ir.ConstU(0xffff, 2), expr.NewRegLoad("r1", 2), expr.NewRegLoad("r2", 1),
-	}
-	leaves2 = []expr.Expr{ir.ConstU(0x01ff, 2), expr.NewRegLoad("r1", 2)}
-	leaves3 = []expr.Expr{ir.ConstU(0x01ff, 2), expr.NewRegLoad("r1", 2), ir.ConstU(3, 1)}
-	ws123   = []expr.Width{1, 2, 3}
-	ws12    = []expr.Width{1, 2}
+}
+
+func leaves4() []expr.Expr {
+	return []expr.Expr{ir.ConstU(1, 1), ir.ConstU(0xffff, 2), expr.NewRegLoad("r1", 2), expr.NewRegLoad("r2", 1)}
+}
+
+func leaves2() []expr.Expr { return []expr.Expr{ir.ConstU(0x01ff, 2), expr.NewRegLoad("r1", 2)} }
+
+var (
+	ws123 = []expr.Width{1, 2, 3}
+	ws12  = []expr.Width{1, 2}
 )
+
+// resetSpaces forgets every built space; the next use rebuilds it from fresh leaves.
+func resetSpaces() {
+	for _, s := range spaces {
+		s.once = sync.Once{}
+		s.trees = nil
+	}
+}
 
 type treeSpace struct {
 	name  string
@@ -108,13 +122,13 @@ func addSpace(name string, b func() []expr.Expr) {
 }
 
 func init() {
-	addSpace("leaf", func() []expr.Expr { return append([]expr.Expr{}, leaves9...) })
-	addSpace("t1", func() []expr.Expr { return ir.Collect(leaves9, nil, ws123) })
-	addSpace("t1small", func() []expr.Expr { return ir.Collect(leaves4, nil, ws123) })
-	addSpace("t2", func() []expr.Expr { return ir.Collect(leaves4, spaces["t1small"].get(), ws123) })
-	addSpace("t1tiny", func() []expr.Expr { return ir.Collect(leaves2, nil, ws12) })
-	addSpace("t2tiny", func() []expr.Expr { return ir.Collect(leaves2, spaces["t1tiny"].get(), ws12) })
-	addSpace("t3tiny", func() []expr.Expr { return ir.Collect(leaves2, spaces["t2tiny"].get(), ws12) })
+	addSpace("leaf", func() []expr.Expr { return leaves9() })
+	addSpace("t1", func() []expr.Expr { return ir.Collect(leaves9(), nil, ws123) })
+	addSpace("t1small", func() []expr.Expr { return ir.Collect(leaves4(), nil, ws123) })
+	addSpace("t2", func() []expr.Expr { return ir.Collect(leaves4(), spaces["t1small"].get(), ws123) })
+	addSpace("t1tiny", func() []expr.Expr { return ir.Collect(leaves2(), nil, ws12) })
+	addSpace("t2tiny", func() []expr.Expr { return ir.Collect(leaves2(), spaces["t1tiny"].get(), ws12) })
+	addSpace("t3tiny", func() []expr.Expr { return ir.Collect(leaves2(), spaces["t2tiny"].get(), ws12) })
 	addSpace("gadget", gadgetSpace)
 	addSpace("wide", wideSpace)
 	// constants only: everything must fold to one constant
